@@ -716,6 +716,48 @@ end
 
 /-! ### all operations; observations; histories -/
 
+section
+variable [DecidableEq α] (E : Elem α) {st : St α} {sp : Sp α} (hg : Good st sp)
+include hg
+
+theorem step_newp (h : Nat) (xs : List α) (hh : h < NS) : StepOK E st sp (.newp h xs) := by
+  simp only [StepOK, step, specStep]
+  have hh8 : h < 8 := by unfold NS at hh; omega
+  obtain ⟨st1, h1, hs1, ho1⟩ := ensure_empty hg.sim hg.len hh8
+  rw [h1, Option.bind_some]
+  have hlen1 := hs_len_of_occv ho1 (by simp [occv, hg.len])
+  have hT01 : st1.hs[T0]? = some none := by
+    rw [empty_iff, ho1, List.getElem?_set_ne (by unfold NS at hh; unfold T0; omega), ← empty_iff]; exact hg.t0
+  obtain ⟨st2, hp, hs2, ho2⟩ := produce_sim E hs1 hh hlen1 hT01 xs
+  refine ⟨st2, hp, hg.of_set hs2 hh (b := true) ?_⟩
+  rw [ho2, ho1, List.set_set]
+
+theorem step_copyp (h : Nat) (xs : List α) (hgd : guard E st (.copyp h xs) = false) : StepOK E st sp (.copyp h xs) := by
+  simp only [StepOK, step, specStep, growingMember]
+  exact mut_case hg h (fun _ => (copy_vals_refines E xs).at _) (fun _ => hgd)
+
+theorem step_appp (h : Nat) (xs : List α) (hgd : guard E st (.appp h xs) = false) : StepOK E st sp (.appp h xs) := by
+  simp only [StepOK, step, specStep, growingMember]
+  exact mut_case hg h (fun _ => (append_vals_refines E xs).at _) (fun _ => hgd)
+
+theorem step_sortby (h : Nat) (asc : Bool) : StepOK E st sp (.sortby h asc) := by
+  obtain ⟨f, hf⟩ := hg.sim
+  simp only [StepOK, step, specStep]
+  refine mut_case hg h (fun ho => ?_) (fun ho => pGuard_false_of_nomove hf ho (nomove_sort _ _))
+  have hirr : ∀ x, (if asc then fun a b => decide (E.key a < E.key b) else fun a b => decide (E.key b < E.key a)) x x = false := by
+    intro x; cases asc <;> simp
+  obtain ⟨l', hl'⟩ := Option.isSome_iff_exists.mp (qsortList_total _ hirr (sp.get h))
+  exact refinesAt_sort _ _ l' hl'
+
+theorem step_iter (h : Nat) : StepOK E st sp (.iter h) := by
+  obtain ⟨f, hf⟩ := hg.sim
+  simp only [StepOK, step, specStep]
+  refine with_occ hg h (fun ho => ?_)
+  obtain ⟨b, r, k, hb, hbo, hrep, hrc, hel⟩ := read_sim hf ho
+  rw [hel]; exact ⟨st, rfl, hg⟩
+
+end
+
 theorem mod_NS_lt (h : Nat) : h % NS < NS := Nat.mod_lt _ (by unfold NS; omega)
 
 theorem step_sim [DecidableEq α] (E : Elem α) {st : St α} {sp : Sp α} (hg : Good st sp) (op : Op α)
@@ -761,6 +803,11 @@ theorem step_sim [DecidableEq α] (E : Elem α) {st : St α} {sp : Sp α} (hg : 
   | popget h => exact step_popget E hg _
   | top h i => exact step_top E hg _ i
   | qget h => exact step_qget E hg _
+  | newp h xs => exact step_newp E hg _ xs (mod_NS_lt h)
+  | copyp h xs => exact step_copyp E hg _ xs hgd
+  | appp h xs => exact step_appp E hg _ xs hgd
+  | sortby h a => exact step_sortby E hg _ a
+  | iter h => exact step_iter E hg _
 
 theorem view_sim {st : St α} {sp : Sp α} (hg : Good st sp) (slot : Nat) : st.view slot = some (sp.view slot) := by
   obtain ⟨f, hf⟩ := hg.sim
@@ -846,5 +893,65 @@ theorem run_sim [DecidableEq α] (E : Elem α) (hirr : ∀ x, E.lt x x = false) 
     simp only []
     rw [observe_sim hg1, Option.bind_some, h2]
     rfl
+
+
+
+/-! ### what the driver runs: guarded steps -/
+
+/-- the driver's loop: `stepG` (an operation that would grow a shared block is skipped) and the observation -/
+def runG [DecidableEq α] (E : Elem α) : St α → List (Op α) → Option (St α × List (Out α))
+  | st, [] => some (st, [])
+  | st, op :: ops =>
+    (stepG E st op).bind fun r => (r.1.observe).bind fun o =>
+      (runG E r.1 ops).map fun rest => (rest.1, (r.2, o) :: rest.2)
+
+/-- the model state after one driver step (unchanged when the step is skipped or faults) -/
+def nextG [DecidableEq α] (E : Elem α) (st : St α) (op : Op α) : St α :=
+  match stepG E st op with
+  | some r => r.1
+  | none => st
+
+/-- the same history on the reference semantics, leaving out exactly the operations the driver leaves out: the
+reference semantics has no capacity, so *which* operations fall under the exclusion is read from the model state
+(`guard`); an excluded operation changes nothing and answers `skip` -/
+def specRunG [DecidableEq α] (E : Elem α) : St α → Sp α → List (Op α) → Sp α × List (Out α)
+  | _, sp, [] => (sp, [])
+  | st, sp, op :: ops =>
+    let r := if guard E st (normOp op) = true then (sp, Res.skip) else specStep E sp (normOp op)
+    let rest := specRunG E (nextG E st op) r.1 ops
+    (rest.1, (r.2, r.1.observe) :: rest.2)
+
+/-- one driver step is one (possibly empty) step of the reference semantics -/
+theorem stepG_sim [DecidableEq α] (E : Elem α) (hirr : ∀ x, E.lt x x = false) {st : St α} {sp : Sp α} (hg : Good st sp)
+    (op : Op α) :
+    ∃ st', stepG E st op = some (st', (if guard E st (normOp op) = true then (sp, Res.skip) else specStep E sp (normOp op)).2) ∧
+      Good st' (if guard E st (normOp op) = true then (sp, Res.skip) else specStep E sp (normOp op)).1 := by
+  unfold stepG
+  simp only []
+  cases hgd : guard E st (normOp op)
+  · simp only [Bool.false_eq_true, if_false]
+    exact step_sim E hg op hirr hgd
+  · simp only [if_true]
+    exact ⟨st, rfl, hg⟩
+
+/-- **every history the check runs**: no hypothesis on the history -/
+theorem runG_sim [DecidableEq α] (E : Elem α) (hirr : ∀ x, E.lt x x = false) :
+    ∀ (ops : List (Op α)) {st : St α} {sp : Sp α}, Good st sp →
+    ∃ st', runG E st ops = some (st', (specRunG E st sp ops).2) ∧ Good st' (specRunG E st sp ops).1 := by
+  intro ops
+  induction ops with
+  | nil => intro st sp hg; exact ⟨st, rfl, hg⟩
+  | cons op ops ih =>
+    intro st sp hg
+    obtain ⟨st1, h1, hg1⟩ := stepG_sim E hirr hg op
+    have hn : nextG E st op = st1 := by unfold nextG; rw [h1]
+    obtain ⟨st2, h2, hg2⟩ := ih hg1
+    refine ⟨st2, ?_, ?_⟩
+    · rw [runG, h1, Option.bind_some]
+      simp only []
+      rw [observe_sim hg1, Option.bind_some, h2]
+      simp only [specRunG, hn]
+      rfl
+    · simp only [specRunG, hn]; exact hg2
 
 end AslProofs.Arr
